@@ -262,21 +262,38 @@ func (e *NodeEnv) buildNode(st state.State, board storage.Storage) node.NodeServ
 func (e *NodeEnv) PollNode(ctx context.Context) node.NodeService {
 	sp := services.ServiceProvider{}
 	sp.SetLogger(quietLogger{})
-	sp.SetState(e.St)
-	sp.SetStorage(e.Board)
+	cst, cbd := crashState{e.St, e.Ctl}, crashBoard{e.Board, e.Ctl}
+	sp.SetState(cst)
+	sp.SetStorage(cbd)
 	sp.SetKeyStore(memKeyStore{e.KP})
-	sp.SetFSMService(fsmservice.NewFSMService(e.St, e.Board, topic))
-	or, err := oprepo.NewOperationRepo(e.St, topic)
+	sp.SetFSMService(fsmservice.NewFSMService(cst, cbd, topic))
+	or, err := oprepo.NewOperationRepo(cst, topic)
 	if err != nil {
 		panic(err)
 	}
 	sp.SetOperationService(opservice.NewOperationService(or))
-	sp.SetSignatureService(sigservice.NewSignatureService(sigrepo.NewSignatureRepo(e.St)))
+	sp.SetSignatureService(sigservice.NewSignatureService(sigrepo.NewSignatureRepo(cst)))
 	n, err := node.NewNode(ctx, &config.Config{Username: e.User}, &sp)
 	if err != nil {
 		panic(err)
 	}
 	return n
+}
+
+// applyCrashResult submits an operation result but dies before durable write k+1; then restarts.
+func (e *NodeEnv) applyCrashResult(d *dto.OperationDTO, k int) {
+	e.Ctl.armed, e.Ctl.remaining = true, k
+	func() {
+		defer func() {
+			if r := recover(); r != nil {
+				if _, ok := r.(crashSignal); !ok {
+					panic(r)
+				}
+			}
+		}()
+		e.Node.ProcessOperation(d)
+	}()
+	e.RestartInPlace()
 }
 
 // Restart simulates a process restart on a crash image of the state directory.
